@@ -304,6 +304,12 @@ def _one(rng, fam, mon, sigs, hist, metrics):
     with env.Capture() as cap:
         r = realise.realise(at, k=k, rng=rng, spacing="random" if rng.random() < 0.3 else "uniform",
                             relabel=bool(rng.integers(2)), shifts=True, flips="random", edge_dirs=True)
+        if posed["mode"] == "axis" and rng.random() < 0.6:
+            # the first SEGMENT of a curved interface exactly parallel to an axis (its sign vector has an exact zero)
+            at, seg = scen.axis_segment(rng, at, r)
+            if seg:
+                posed = dict(posed, segment=seg)
+                hist["axis-parallel-first-segment"] = hist.get("axis-parallel-first-segment", 0) + 1
         v, e, c = r.vertices, r.edges, r.cells
         r2 = r
         if ne is not None:
